@@ -39,10 +39,13 @@ def form_case(draw):
                         st.text(BCHARS, min_size=30, max_size=70)))
     tok = ('\r\n--' + b0).encode()
     adversarial = st.lists(st.one_of(
-        st.sampled_from([b'\r', b'\n', b'-', b'\r\n', b'--', b'\r\n--', tok[:-1], tok[:len(tok) // 2 + 1], b'--' + b0.encode(), b'\r\n\r\n']),
+        st.sampled_from([b'\r', b'\n', b'-', b'\r\n', b'--', b'\r\n--', tok[:-1], tok[:len(tok) // 2 + 1], b'--' + b0.encode(), b'\r\n\r\n',
+                         # suffixes of the delimiter (what is still expected when a read boundary falls inside a delimiter)
+                         tok[1:], tok[2:], tok[3:], tok[4:], tok[-1:], tok[-2:], tok[len(tok) // 2:], b0.encode() + b'--', b0.encode() + b'\r\n']),
         st.binary(min_size=1, max_size=6)), max_size=8).map(b''.join)
     file_content = st.one_of(adversarial, st.binary(max_size=40), st.binary(min_size=200, max_size=1500))
-    text_value = st.one_of(st.text(max_size=12), st.sampled_from(['', ' ', '\r\n', '--', 'a\r\n--b', 'é', 'x' * 50]),
+    text_value = st.one_of(st.text(max_size=12), st.sampled_from(['', ' ', '\r\n', '--', 'a\r\n--b', 'é', 'x' * 50, '\ufeff', '\ufeffhello', 'a\ufeff', '\ufffe', '\x00', '\x1a',
+                                                                  b0[-2:] + 'tail', b0[len(b0) // 2:] + 'x']),
                            adversarial.map(lambda b: b.decode('latin1')))
     names = draw(st.lists(NAME, min_size=1, max_size=3))
     parts = []
